@@ -219,6 +219,14 @@ def names_rules(ctx):
             t = [x for x in s.body if isinstance(x, ast.Try)]
             if t and [norm(b) for b in t[0].body] == [f"self.ids_keep.append(self.fields[{norm(s.target)}])"]:
                 ok = True
+            # the same selection written as a membership test (a missing name is skipped either way)
+            g = [x for x in s.body if isinstance(x, ast.If) and norm(x.test) == f"{norm(s.target)} in self.fields" and not x.orelse]
+            if g and [norm(b) for b in g[0].body] == [f"self.ids_keep.append(self.fields[{norm(s.target)}])"]:
+                ok = True
+        if isinstance(s, ast.Assign) and norm(s.targets[0]) == "self.ids_keep" and isinstance(s.value, ast.ListComp) and \
+                rules.norm_comp(s.value) in ("[self.fields[v0] for v0 in kept_fields if v0 in self.fields]",
+                                             "[self.fields[v0] for v0 in kept_fields.split() if v0 in self.fields]"):
+            ok = True
     ctx.check(ok, f"{P}.ORDER", site, "ids_keep = header indices of the requested kept fields, in requested order",
               "ids_keep is not built as fields[f] over the requested names in order", key="ids_keep")
     return fi
@@ -390,9 +398,16 @@ def minmax_rules(ctx, rule, fi, rest, desc):
     got = seq
     conv = sorted(norm(n) for n in walk_no_nested(fi.node) if isinstance(n, ast.Assign)
                   and norm(n.targets[0]) in ("min_vals", "max_vals"))
-    ctx.check(conv == ["max_vals = [f'{m}' for m in max_vals]", "min_vals = [f'{m}' for m in min_vals]"],
-              f"{rule}.FMT-EXACT", site, "min/max values are formatted with str() (round-trip exact)",
-              f"min/max values are formatted by {conv}", key="minmax-format")
+    import re as _re
+    conv_c = sorted(f"{norm(n.targets[0])} = {rules.norm_comp(n.value)}" for n in walk_no_nested(fi.node)
+                    if isinstance(n, ast.Assign) and norm(n.targets[0]) in ("min_vals", "max_vals"))
+    # the rows are joined from str() of every value: converted beforehand, or as a bare `{v}` element of the join
+    inline = [x for x in got if _re.fullmatch(r"rep:len\(new_(mins|maxs)\):write:W\[<join ',' \{\w+\} over (min|max)_vals>,\]", x)]
+    fmt_ok = conv_c == ["max_vals = [f'{v0}' for v0 in max_vals]", "min_vals = [f'{v0}' for v0 in min_vals]"] or \
+        (not conv_c and len(inline) == 2)
+    ctx.check(fmt_ok, f"{rule}.FMT-EXACT", site, "min/max values are formatted with str() (round-trip exact)",
+              f"min/max values are formatted by {conv or inline}", key="minmax-format")
+    got = [_re.sub(r"<join ',' \{\w+\} over ((min|max)_vals)>", r"<join ',' {elem} over \1>", x) for x in got]
     ctx.check(got == exp, f"{rule}.H-COPY", site,
               "min/max tables: `ncells,nout` then one comma-terminated row per box from new_mins / new_maxs, values "
               "formatted with str() (round-trip exact)",
